@@ -48,6 +48,8 @@ def child_env(extra: dict | None = None) -> dict:
     pp = [SRC, VERIF]
     if os.path.isdir(DEPS):
         pp.append(DEPS)
+    if env.get("COVERAGE_PROCESS_START"):  # tools/coverage_run.sh: measure the subprocesses too
+        pp.insert(0, os.path.join(VERIF, "tools", "covsite"))
     env["PYTHONPATH"] = os.pathsep.join(pp)
     env["PYTHONHASHSEED"] = "0"
     env["VERIF_REPO"] = REPO
